@@ -1248,37 +1248,55 @@ int
 list_pal(const char *infname, const char *outfname, list_table_t *list_tbl, options_t *options)
 {
     uint8  palette_data[256 * 3];
-    int    nPals, j;
-    uint16 ref;
+    int32  file_id;
+    uint16 find_tag = 0, find_ref = 0; /* search state of Hfind */
+    int32  find_off, find_len;
+    uint16 lut_tag, lut_ref;
+    int32  lut_off, lut_len;
 
     if (options->trip == 0) {
         return SUCCEED;
     }
 
-    DFPrestart();
-
-    if ((nPals = DFPnpals(infname)) == FAIL) {
+    /* Walk the 8-bit palettes (DFTAG_IP8) of the input file with Hfind.  The DFP interface cannot be used to
+       read one file and write another in turns (DFPgetpal starts from the first palette again whenever the file
+       name of the last DFP call differs, so every lone palette came out as a copy of the first one), and
+       DFPgetpal cannot reach palettes that are stored under DFTAG_LUT only; those belong to images and are
+       copied with them. */
+    if ((file_id = Hopen(infname, DFACC_READ, (int16)0)) == FAIL) {
         printf("Failed to get palettes in <%s>\n", infname);
         return FAIL;
     }
 
-    for (j = 0; j < nPals; j++) {
-        if (DFPgetpal(infname, (void *)palette_data) == FAIL) {
-            printf("Failed to read palette <%d> in <%s>\n", j, infname);
-            return FAIL;
+    while (Hfind(file_id, DFTAG_IP8, DFREF_WILDCARD, &find_tag, &find_ref, &find_off, &find_len, DF_FORWARD) !=
+           FAIL) {
+        /* check if already inserted in image: an image recorded this reference number, and the image's
+           DFTAG_LUT is this very palette (the same data), not an unrelated one that got the same number */
+        if (list_table_search(list_tbl, DFTAG_IP8, find_ref) >= 0) {
+            lut_tag = 0;
+            lut_ref = 0;
+            if (Hfind(file_id, DFTAG_LUT, find_ref, &lut_tag, &lut_ref, &lut_off, &lut_len, DF_FORWARD) != FAIL &&
+                lut_off == find_off)
+                continue;
         }
 
-        ref = DFPlastref();
-
-        /* check if already inserted in image */
-        if (list_table_search(list_tbl, DFTAG_IP8, ref) >= 0) {
-            continue;
+        if (find_len != (int32)sizeof(palette_data) ||
+            Hgetelement(file_id, find_tag, find_ref, palette_data) == FAIL) {
+            printf("Failed to read palette <%d> in <%s>\n", (int)find_ref, infname);
+            Hclose(file_id);
+            return FAIL;
         }
 
         if (DFPaddpal(outfname, palette_data) == FAIL) {
             printf("Failed to write palette in <%s>\n", outfname);
+            Hclose(file_id);
             return FAIL;
         }
+    }
+
+    if (Hclose(file_id) == FAIL) {
+        printf("Failed to close file <%s>\n", infname);
+        return FAIL;
     }
 
     return SUCCEED;
